@@ -161,8 +161,8 @@ func check(prop, tier string) int {
 		for k, v := range res.Counters {
 			counters[k] += v
 		}
-		if !res.Exhaustive {
-			exhaustive = false
+		if !res.Exhaustive || res.Bound >= 0 {
+			exhaustive = false // a preemption-bounded run is complete only within its bound
 		}
 		if res.InfraError != "" {
 			row.Verdict = "infrastructure error: " + res.InfraError
